@@ -8,11 +8,12 @@ GEN_KINDS = {
     "bitbase": "BitbaseDump.v",
     "consts": "Consts.v",
     "layout": "Layout.v",
+    "evalconsts": "EvalConsts.v",
 }
 
 
 def gen(kinds):
-    exe = harness("dumper", exclude=("polyglot.o",))
+    exe = harness("dumper", exclude=("polyglot.o", "endgame.o"))
     changed = []
     for k in kinds:
         rc, o, e = sh([exe, k], timeout=120)
